@@ -27,7 +27,10 @@ RULE = ('case = (api, pool size, result mode, items with failing positions, comp
         'non-trivial = at least 2 items and a non-identity completion order or a failing item; distinct by full tuple')
 TRUSTED = ['model Pool.v hand-written from mapproxy/util/async_.py; tie = differential run of real ThreadPool vs model']
 ASSUMPTIONS = ['queue.Queue is FIFO and loses nothing', 'one result is put per task taken']
-EXPLANATION = 'resequencing invariant proved for all permutations; implementation driven through chosen completion orders'
+EXPLANATION = ('resequencing invariant proved for all permutations and hand-over points; put/task_done handshake and forced-shutdown drain '
+               'proved for all interleavings; consumers of result objects proved order-independent; implementation driven through chosen '
+               'completion orders, gated puts, a forced empty()/get() race, the real _create_bulk_meta_tile / LayerRenderer and request '
+               'sequences through the real WSGI app')
 
 
 class Boom(Exception):
